@@ -316,7 +316,9 @@ func (fr *Frame) callStatic(v ssa.Value, fn *ssa.Function, args []Term, cc *ssa.
 		if sig.Recv() != nil {
 			rt = sig.Recv().Type()
 		}
+		fr.calleeTypeArgs = typeArgsOf(fn)
 		res := fr.applyContract(c, sig, rt, args, ins, hint)
+		fr.calleeTypeArgs = nil
 		fr.setResults(v, res, sig)
 		return
 	}
